@@ -630,6 +630,9 @@ func (fr *Frame) enterLoop(b *ssa.BasicBlock, li *loopInfo, st *State) *State {
 			if ki.FreshOnly || lf.dirty[k] || lf.dirty["*"] {
 				continue // FreshOnly already framed by havocKeys
 			}
+			if ki.Ghost != "" || ki.VisitedOf != nil {
+				continue // ghost state is written by models, not by store instructions: no syntactic frame
+			}
 			var except []string
 			ok := true
 			for _, t := range lf.targets[k] {
